@@ -43,6 +43,10 @@ type Alpha struct {
 	Reads      []string // list listdead stats lookup
 	Lists      []qmodel.ListSpec
 	Ticks      []time.Duration
+	// Churn > 0: one operation lets that many messages pass through a route of their own (enqueue, dequeue, ack each);
+	// use only without delivered retention and limits. It reaches size thresholds of the store's bookkeeping (the
+	// memory store compacts its order list at 1024 entries) that single steps cannot.
+	Churn int
 	// Reopen (SQLite searches only): a restart of the process on the same database file is an operation of the
 	// alphabet; the contract says it changes nothing and every lease a worker holds stays what it was.
 	Reopen bool
@@ -187,6 +191,9 @@ func (a Alpha) Ops(m *qmodel.Model, handles []string) []qmodel.Op {
 	if a.Reopen {
 		ops = append(ops, qmodel.Op{Kind: "reopen"})
 	}
+	if a.Churn > 0 && !m.Churned {
+		ops = append(ops, qmodel.Op{Kind: "churn", Batch: a.Churn})
+	}
 	for _, d := range a.Ticks {
 		ops = append(ops, qmodel.Op{Kind: "tick", Dur: d})
 	}
@@ -280,6 +287,9 @@ func Run(spec Spec) *Result {
 	}
 	if spec.Backend != "sqlite" {
 		spec.Alpha.Reopen = false
+	}
+	if spec.Backend != "memory" {
+		spec.Alpha.Churn = 0 // the thresholds it is after are the memory store's; thousands of SQLite transactions per step are not affordable
 	}
 	scratch := runner.Scratch()
 	systems := make([]*qsys.Sys, spec.Workers)
